@@ -193,6 +193,30 @@ func cvEqTree(a, b *ivalue.Value) (bool, bool) {
 
 // VerifHarness_EqLaws: two values of one static type; reflexivity, symmetry,
 // == iff same structural content, clone laws, equal display in both runtimes.
+// cvCellsVM collects the value cells reachable from v (v itself, list items, object fields, option payloads).
+func cvCellsVM(v *vvalue.Value, out *[]*vvalue.Value) {
+	if v == nil || *v == nil {
+		return
+	}
+	*out = append(*out, v)
+	switch x := (*v).(type) {
+	case vvalue.ValueList:
+		for _, it := range *x.Values {
+			cvCellsVM(it, out)
+		}
+	case vvalue.ValueObject:
+		for _, f := range x.FieldsInternal {
+			cvCellsVM(f, out)
+		}
+	case vvalue.ValueAnyObject:
+		for _, f := range x.FieldsInternal {
+			cvCellsVM(f, out)
+		}
+	case vvalue.ValueOption:
+		cvCellsVM(x.Inner, out)
+	}
+}
+
 func VerifHarness_EqLaws() {
 	d := herrors.VerifParam("depth", 1)
 	lib := herrors.VerifNdIntRange("lib", 0, 1)
@@ -231,6 +255,20 @@ func VerifHarness_EqLaws() {
 			if okc {
 				herrors.VerifAssert("clone-equals-original", rc)
 			}
+			// every value cell is assignable through its pointer (Opcode_Assign does *dest = *src): the clone may
+			// not share a single cell with the original, at any depth
+			var po, pc []*vvalue.Value
+			cvCellsVM(va, &po)
+			cvCellsVM(c, &pc)
+			shared := false
+			for _, x := range pc {
+				for _, y := range po {
+					if x == y {
+						shared = true
+					}
+				}
+			}
+			herrors.VerifAssert("clone-shares-no-cell-at-any-depth", !shared)
 			if (*c).Kind() == vvalue.ListValueKind {
 				cl := (*c).(vvalue.ValueList)
 				*cl.Values = append(*cl.Values, vvalue.NewValueInt(99))
